@@ -32,6 +32,8 @@ func c09Alphabet(shapes []string) []string {
 			}
 		}
 	}
+	// plain (non-rewrite) rules for the same host: they are not rewrites and must not disturb them
+	alpha = append(alpha, "||x.com^", "@@||x.com^$important")
 	return alpha
 }
 
@@ -86,8 +88,14 @@ func checkC09(c c09Case, rec *Rec) *Violation {
 			res.NetworkRules = append(res.NetworkRules, r)
 		}
 	}
+	before := netTexts(res.NetworkRules)
 	all := res.DNSRewritesAll()
 	allTexts := netTexts(all)
+	for _, r := range all {
+		if r.DNSRewrite == nil {
+			return viol(id, "C09:non-rewrite-in-rewrites", "DNSRewritesAll() returned %q, which is not a $dnsrewrite rule (sequence %q)", r.Text(), c.Seq)
+		}
+	}
 	var want []string
 	nExc, structured := 0, false
 	for _, r := range all {
@@ -130,6 +138,9 @@ func checkC09(c c09Case, rec *Rec) *Violation {
 	// the call must not disturb the result object (feeds C13)
 	if after := netTexts(res.DNSRewritesAll()); strings.Join(after, "\n") != strings.Join(allTexts, "\n") {
 		return viol(id, "C09:result-mutated", "DNSRewritesAll() changed after DNSRewrites(): %q -> %q", allTexts, after)
+	}
+	if after := netTexts(res.NetworkRules); strings.Join(after, "\n") != strings.Join(before, "\n") {
+		return viol(id, "C09:result-mutated", "NetworkRules of the result changed after the rewrite getters: %q -> %q", before, after)
 	}
 	if again := netTexts(res.DNSRewrites()); strings.Join(again, "\n") != strings.Join(got, "\n") {
 		return viol(id, "C09:not-idempotent", "second DNSRewrites() call differs: %q then %q", got, again)
